@@ -180,36 +180,63 @@ const typeFixture = `
 class Base { public $x = 0; }
 class Child extends Base {}
 class Sib {}
-class Holder { public TYPE $t; }
+class Holder { public TYPE $t; public static TYPE $st;
+  function __construct(TYPE $c = DEFAULT) { }
+  function mp(TYPE $v) { return 1; }
+  static function smp(TYPE $v) { return 1; }
+  function mr($v): TYPE { return $v; }
+  static function smr($v): TYPE { return $v; }
+  static function viaSelf($v) { self::$st = $v; return 1; }
+  static function viaStatic($v) { static::$st = $v; return 1; }
+}
+class HolderKid extends Holder {}
 function takes(TYPE $v) { return 1; }
 function gives($v): TYPE { return $v; }
 `
 
+// a default value of each declared type (the constructor parameter is optional so that
+// `new Holder()` stays possible for the other boundaries)
+var typeDefaults = []string{"0", "\"\"", "[]", "null", "null", "0"}
+
+// boundaries: where a declared type meets a value
+var boundaries = []struct {
+	stmt  string // VALUE is replaced by the value expression
+	param bool   // a parameter boundary (the recorded null-into-typed-parameter finding applies)
+	mret  bool   // a method return boundary (the recorded null-from-typed-method finding applies)
+}{
+	{"$h = new Holder(); $h->t = VALUE;", false, false},
+	{"takes(VALUE);", true, false},
+	{"gives(VALUE);", false, false},
+	{"$h = new Holder(); $h->mp(VALUE);", true, false},
+	{"Holder::smp(VALUE);", true, false},
+	{"$h = new Holder(VALUE);", true, false},
+	{"Holder::$st = VALUE;", false, false},
+	{"Holder::viaSelf(VALUE);", false, false},
+	{"HolderKid::viaStatic(VALUE);", false, false},
+	{"$h = new Holder(); $h->mr(VALUE);", false, true},
+	{"Holder::smr(VALUE);", false, true},
+	{"$f = function(TYPE $v) { return 1; }; $f(VALUE);", true, false},
+	{"$f = function($v): TYPE { return $v; }; $f(VALUE);", false, false},
+	{"$f = fn(TYPE $v) => 1; $f(VALUE);", true, false},
+	{"$f = fn($v): TYPE => $v; $f(VALUE);", false, false},
+}
+
 func H_types() {
 	t, v := symx.Choose("type", len(types)), symx.Choose("value", len(valueExprs))
-	boundary := symx.Choose("boundary", 3) // 0 typed property, 1 parameter, 2 return value
+	boundary := symx.Choose("boundary", len(boundaries))
 	w := symx.Int("w")
-	src := typeFixture
-	for i := 0; i < 3; i++ {
+	src := typeFixture + "\n" + guarded(replace(boundaries[boundary].stmt, "VALUE", valueExprs[v])+" mark(70);") + "\nmark(99);"
+	for i := 0; i < 12; i++ {
 		src = replace(src, "TYPE", types[t])
 	}
-	var stmt string
-	switch boundary {
-	case 0:
-		stmt = "$h = new Holder(); $h->t = " + valueExprs[v] + "; mark(70);"
-	case 1:
-		stmt = "takes(" + valueExprs[v] + "); mark(70);"
-	case 2:
-		stmt = "gives(" + valueExprs[v] + "); mark(70);"
-	}
-	src += "\n" + guarded(stmt) + "\nmark(99);"
+	src = replace(src, "DEFAULT", typeDefaults[t])
 	s := sx.Compile(src)
 	symx.Assert(s.Err == nil, "fixture parses")
 	if s.Err != nil {
 		return
 	}
 	_, ctl := s.Run(sx.Bind{Name: "pw", V: sx.Int(w)})
-	tag := "boundary" + string(rune('0'+boundary)) + " " + types[t] + " <- " + valueExprs[v]
+	tag := "`" + boundaries[boundary].stmt + "` " + types[t] + " <- " + valueExprs[v]
 	symx.Assert(ctl == nil, tag+": rejection is a catchable error")
 	if ctl != nil {
 		return
@@ -219,7 +246,18 @@ func H_types() {
 		wantMark = 70
 	}
 	ok := len(sx.Log) == 2 && sx.Log[0].Kind == 'M' && sx.Log[0].I == wantMark && sx.Log[1].Kind == 'M' && sx.Log[1].I == 99
-	symx.AssertKnown(ok, tag+": accepted iff the value has the declared type", boundary == 1 && v == 6 && !accepts[t][v], "C07-null-into-typed-parameter")
+	known, id := false, ""
+	if v == 6 && !accepts[t][v] {
+		switch {
+		case boundaries[boundary].param:
+			known, id = true, "C07-null-into-typed-parameter"
+		case boundaries[boundary].mret:
+			// a method whose declared return type does not admit null and that returns null hands
+			// the caller an empty string instead (deliberate fallback in ClassMethod.Call)
+			known, id = true, "C07-null-from-typed-method"
+		}
+	}
+	symx.AssertKnown(ok, tag+": accepted iff the value has the declared type", known, id)
 	symx.Reach("end")
 }
 
